@@ -76,6 +76,17 @@ CLAIMS["C21"] = {
     "note": "Trusted: Kani/CBMC. Keys, DIDs, repository ids and user agents are outside (see evidence.outside_claim).",
 }
 
+CLAIMS["C13"] = {
+    "technique": _T + " of the wire decoders on symbolic bytes (fixed-size decoders with symbolic prefix length; strings and messages by literal layout)",
+    "text": "Partial claim: for the decoders listed (timestamps, node ids, subscription filters, Info, ping/pong padding, aliases and strings up to 3 bytes, message heads with unknown types, Subscribe with every rejected filter size class) the solver shows that no input within the bounds makes the decoder panic, overflow, index out of bounds or fail an assert. Together with the C14 harnesses (frames, varints, payloads) this covers the first-handling code of inbound bytes; announcements with vectors, the git request header parser and everything at Service level are outside.",
+    "note": "Trusted: Kani/CBMC; git2::Oid::from_bytes stub. Schedules and connection states are outside: Kani has no concurrency and the Service state is hash maps + sqlite.",
+}
+CLAIMS["C15"] = {
+    "technique": _T + " of wire::deserialize followed by re-encoding, one harness per literal message layout with symbolic content bytes",
+    "text": "Partial claim: for Ping, Pong, Info, unknown type tags, trailing bytes and rejected Subscribe filter sizes the solver shows that bytes which decode successfully re-encode to exactly the same bytes (and within the 16-bit size limit), for every value of the content bytes. Announcements are outside.",
+    "note": "Trusted: Kani/CBMC; git2::Oid::from_bytes stub. Known finding: ping/pong padding bytes are not checked to be zero (see known_findings.txt).",
+}
+
 NOT_APPLICABLE = {
     "C01": "post-fetch refdb contents vs signed refs: decided inside FetchState::run over gix transport, libgit2 ref transactions and ed25519 signatures (FFI / curve arithmetic) - not encodable for CBMC/SMT within reach (DESIGN §7)",
     "C02": "threshold gate and Behind/Diverged handling are statements inside FetchState::run between git I/O calls; no function boundary to drive symbolically (DESIGN §7)",
@@ -87,6 +98,8 @@ NOT_APPLICABLE = {
     "C09": "cache answers come from sqlite json_tree queries (C engine behind FFI) and the reference side is git evaluation (DESIGN §7)",
     "C10": "Service::handle_announcement / relay over HashMap state keyed by 32-byte ids, sqlite stores and signed messages; a 2-entry HashMap does not finish under CBMC (DESIGN §7, §8); the strictly-newer clause is decided under C24",
     "C11": "same Service state as C10 (hash maps, sqlite, signatures) (DESIGN §7)",
+    "C12": "is_authorized needs Storage::repository + identity_doc (git2 handles, serde_json Doc) and the request header parser (upload_pack::pktline) does not finish under CBMC in any layout (15 min, DESIGN §8): neither half of the decision kernel is encodable within reach",
+    "C26": "truncation runs unicode-segmentation's grapheme cursor and unicode-display-width's tables; CBMC executes their binary searches symbolically even for a concrete one-character text (a single space: > 1200 loop unwindings, no result in 20 min), DESIGN §8",
     "C16": "interleavings across Service and Wire (reactor, hash maps, channels); Kani has no concurrency and the sequential machine sits on the same hash maps (DESIGN §7)",
     "C18": "canonical JSON is produced by serde_json's serializer through Box<dyn Write>, BTreeMap<Vec<u8>,Vec<u8>> buffering and Unicode NFC tables; two symbolic characters exceed the budget (DESIGN §7)",
     "C20": "signed-refs text parses object ids through libgit2 (git_oid_fromstr, FFI) and the second half of the statement is ed25519 verification (DESIGN §7)",
